@@ -49,5 +49,38 @@ theorem T_x86_genBranch (mode : Mode) (o t : Nat) (ho : o < 18446744073709551616
         simp only [ge_iff_le, Bool.and_eq_true, decide_eq_true_eq, Res.bind_ok]
         rfl
 
+/-- `inject_asm_code(bs, dest)` as translated: one raw copy of exactly `bs` to `dest`, then one
+    cache flush of exactly `[dest, dest + len)`. -/
+theorem T_x86_inject (mode : Mode) (bs : List Nat) (dest : Nat) (os : Os) (h : dest + bs.length < 18446744073709551616) :
+    run (GenX86.inject_asm_code mode bs dest) os =
+      (Res.ok (), { os with log := os.log ++ [("copy_nonoverlapping", [Val.bs bs, Val.n dest, Val.n bs.length]),
+                                               ("__clear_cache", [Val.n dest, Val.n ((dest + bs.length : Nat) : Int)])] }) := by
+  simp only [GenX86.inject_asm_code]
+  simp only [run_bind, run_extU, run_lift, uadd64_ok mode dest bs.length h]
+  simp only [GenX86.clear_cache, run_bind, run_extU, run_pure]
+  simp
+
+theorem stub_bytes (v : Bool) :
+    setIdx [(72 : Nat), 199, 192, 0, 0, 0, 0, 195] 3 (ofBool v) = Res.ok (X86.boolStub v) := by
+  cases v <;> rfl
+
+theorem boolStub_len (v : Bool) : (X86.boolStub v).length = 8 := by cases v <;> rfl
+
+/-- `generate_will_return_boolean_jit_code` as translated copies exactly `X86.boolStub v` to the
+    trampoline and then flushes exactly that range (two OS-visible events, nothing else). -/
+theorem T_x86_boolStub (mode : Mode) (jit : Nat) (v : Bool) (os : Os) (h : jit + 8 < 18446744073709551616) :
+    run (GenX86.generate_will_return_boolean_jit_code mode jit v) os =
+      (Res.ok (), { os with log := os.log ++ [("copy_nonoverlapping", [Val.bs (X86.boolStub v), Val.n jit, Val.n 8]),
+                                               ("__clear_cache", [Val.n jit, Val.n ((jit + 8 : Nat) : Int)])] }) := by
+  have hl : jit + (X86.boolStub v).length < 18446744073709551616 := by
+    have := boolStub_len v; omega
+  rw [GenX86.generate_will_return_boolean_jit_code]
+  rw [run_bind_lift_ok _ _ _ _ (stub_bytes v)]
+  show run (GenX86.inject_asm_code mode (X86.boolStub v) jit >>= fun _ => pure ()) os = _
+  rw [run_bind_ok _ _ _ _ _ (T_x86_inject mode _ jit os hl), run_pure, boolStub_len]
+  rfl
+
 end Inj.Tie
+#print axioms Inj.Tie.T_x86_boolStub
 #print axioms Inj.Tie.T_x86_genBranch
+#print axioms Inj.Tie.T_x86_inject
